@@ -21,7 +21,7 @@ ITEM_HARNESS = {
     'builder::SourceMapBuilder::add_token': ['rewrite'], 'builder::SourceMapBuilder::take_mapping': ['hermes_rewrite'],
     'decoder::StripHeaderReader::strip_head_read': ['header'], 'decoder::StripHeaderReader::read': ['header'], 'decoder::strip_junk_header': ['header'],
     'decoder::is_junk_json': ['header'], 'decoder::StripHeaderReader::new': ['header'],
-    'decoder::decode_rmi': ['rmi_roundtrip'], 'decoder::decode_regular__mappings_loop': ['roundtrip', 'rmi_roundtrip', 'raw_keys'],
+    'decoder::decode_rmi': ['rmi_roundtrip'], 'decoder::decode_regular__mappings_loop': ['decode_extreme', 'roundtrip', 'rmi_roundtrip', 'raw_keys'],
     'encoder::serialize_mappings': ['raw_keys', 'roundtrip'], 'encoder::serialize_range_mappings': ['rmi_roundtrip'], 'encoder::encode_rmi': ['rmi_roundtrip'],
     'encoder::encode_rmi::encode_byte': ['rmi_roundtrip'],
     'types::SourceMap::prefix_source': ['root_setters'], 'types::SourceMap::set_source_root': ['root_setters', 'roundtrip'], 'types::SourceMap::set_source': ['root_setters'],
@@ -34,7 +34,7 @@ ITEM_HARNESS = {
 PROPERTY_BOUNDED = {
     'C01': ['roundtrip'], 'C03': ['raw_keys'], 'C08': ['index_flatten'], 'C09': ['rewrite', 'hermes_rewrite'],
     'C14': ['hermes_scope'], 'C13': ['root_setters', 'builder_model'], 'C07': ['rmi_roundtrip'], 'C12': ['header'], 'C04': ['ordering'],
-    'C10': ['adjust', 'adjust_dups'], 'C15': ['sourceview'], 'C17': ['function_name'], 'C18': ['discover'], 'C19': ['relpath'], 'C20': ['ram_bundle'],
+    'C10': ['adjust', 'adjust_dups'], 'C05': ['decode_extreme'], 'C15': ['sourceview'], 'C17': ['function_name'], 'C18': ['discover'], 'C19': ['relpath'], 'C20': ['ram_bundle'],
 }
 _results = {}
 _built = {}
